@@ -317,54 +317,256 @@ mutual
         simp only [restToks, List.cons_append, List.append_assoc]
 end
 
-/-! ### arguments (one per line) -/
+theorem mapM_cons_some' {α β : Type} {f : α → Option β} {a : α} {as : List α} {rs : List β} (h : (a :: as).mapM f = some rs) :
+    ∃ b bs, f a = some b ∧ as.mapM f = some bs ∧ rs = b :: bs := by
+  rw [List.mapM_cons] at h
+  cases hb : f a with
+  | none => rw [hb] at h; simp at h
+  | some b =>
+    rw [hb] at h
+    cases hbs : as.mapM f with
+    | none => rw [hbs] at h; simp at h
+    | some bs =>
+      rw [hbs] at h
+      simp only [Option.bind_eq_bind, Option.bind_some, Option.pure_def, Option.some.injEq] at h
+      exact ⟨b, bs, rfl, rfl, h.symm⟩
+
+/-! ### metadata tuples (one `"key": "value"` pair per line) -/
+
+/-- the texts of a metadata tuple: every value written through `str()` -/
+def metaPairs : List (String × Raw) → Option (List (String × String))
+  | [] => some []
+  | (k, v) :: kv =>
+      match scalarText v with
+      | none => none
+      | some t => match metaPairs kv with
+        | none => none
+        | some ps => some ((k, t) :: ps)
+
+def pairRow (p : String × String) : String := "        " ++ quoteStr p.1 ++ ": " ++ quoteStr p.2
+
+theorem meta_rows {kv : List (String × Raw)} {rows : List String}
+    (h : (kv.mapM fun (p : String × Raw) => (scalarText p.2).map fun t => "        " ++ quoteStr p.1 ++ ": " ++ quoteStr t) = some rows) :
+    ∃ ps, metaPairs kv = some ps ∧ rows = ps.map pairRow := by
+  induction kv generalizing rows with
+  | nil => simp at h; subst h; exact ⟨[], rfl, rfl⟩
+  | cons p kv ih =>
+    obtain ⟨k, v⟩ := p
+    obtain ⟨r, rs, hr, hrs, rfl⟩ := mapM_cons_some' h
+    cases ht : scalarText v with
+    | none => rw [ht] at hr; simp at hr
+    | some t =>
+      rw [ht] at hr
+      simp only [Option.map_some, Option.some.injEq] at hr
+      obtain ⟨ps, hps, rfl⟩ := ih hrs
+      exact ⟨(k, t) :: ps, by simp [metaPairs, ht, hps], by simp [pairRow, ← hr]⟩
+
+def pairToks (p : String × String) (l : Nat) : List Tok := [⟨.string, .str p.1, l⟩, ⟨.colon, .none, l⟩, ⟨.string, .str p.2, l⟩]
+
+def pairsToks : List (String × String) → Nat → List Tok
+  | [], _ => []
+  | [p], l => pairToks p l
+  | p :: q :: ps, l => pairToks p l ++ ⟨.comma, .none, l⟩ :: pairsToks (q :: ps) (l + 1)
+
+/-- the map the parser builds from the pairs (from the last pair backwards) -/
+def dictOf : List (String × String) → Nat → List (String × ENode)
+  | [], _ => []
+  | [p], l => [(p.1, .mk (.str p.2) l)]
+  | p :: q :: ps, l => dictSet (dictOf (q :: ps) (l + 1)) p.1 (.mk (.str p.2) l)
+
+theorem pairRPair (p : String × String) (l : Nat) : RPair (pairToks p l) (p.1, .mk (.str p.2) l) := RPair.str p.1 p.2 l l l
+
+theorem pairsRPairs : ∀ (ps : List (String × String)), ps ≠ [] → ∀ l, RPairs (pairsToks ps l) (dictOf ps l)
+  | [], h, _ => absurd rfl h
+  | [p], _, l => RPairs.one _ _ (pairRPair p l)
+  | p :: q :: ps, _, l => RPairs.cons _ _ _ l _ _ (pairRPair p l) (pairsRPairs (q :: ps) (by simp) (l + 1))
+
+theorem pairRow_seg (p : String × String) (rest : List Char) (l : Nat) :
+    lexS ((pairRow p).toList ++ rest) l = pairToks p l ++ lexS rest l := by
+  have e : (pairRow p).toList ++ rest =
+      ' ' :: ' ' :: ' ' :: ' ' :: ' ' :: ' ' :: ' ' :: ' ' :: ((quoteStr p.1).toList ++ (':' :: ' ' :: ((quoteStr p.2).toList ++ rest))) := by
+    unfold pairRow
+    rw [String.toList_append, String.toList_append, String.toList_append]
+    show (([' ', ' ', ' ', ' ', ' ', ' ', ' ', ' '] ++ (quoteStr p.1).toList) ++ [':', ' ']) ++ (quoteStr p.2).toList ++ rest = _
+    simp only [List.append_assoc, List.cons_append, List.nil_append]
+  rw [e]
+  iterate 8 rw [lexS_blank ' ' _ l (Or.inl rfl)]
+  rw [spells_quoted p.1 _ l trivial, lexS_punct ':' .colon _ l (by decide), lexS_blank ' ' _ l (Or.inl rfl), spells_quoted p.2 rest l trivial]
+  rfl
+
+/-- the pair rows after the first: `,` at the end of the previous line, the row on the next -/
+def morePairChars (rows : List String) : List Char := rows.flatMap fun r => ',' :: '\n' :: r.toList
+
+theorem pairs_chars (r : String) (rs : List String) : (",\n".intercalate (r :: rs)).toList = r.toList ++ morePairChars rs := by
+  induction rs generalizing r with
+  | nil => simp [morePairChars]
+  | cons b t ih =>
+    rw [String.intercalate_cons_cons]
+    simp only [String.toList_append, List.append_assoc, ih b]
+    simp [morePairChars]
+
+theorem pairsSeg : ∀ (p : String × String) (ps : List (String × String)) (rest : List Char) (l : Nat),
+    lexS ((pairRow p).toList ++ (morePairChars (ps.map pairRow) ++ rest)) l = pairsToks (p :: ps) l ++ lexS rest (l + ps.length)
+  | p, [], rest, l => by simp [morePairChars, pairsToks, pairRow_seg]
+  | p, q :: ps, rest, l => by
+      have e : morePairChars ((q :: ps).map pairRow) ++ rest = ',' :: '\n' :: ((pairRow q).toList ++ (morePairChars (ps.map pairRow) ++ rest)) := by
+        simp [morePairChars]
+      rw [e, pairRow_seg, lexS_punct ',' .comma _ l (by decide), lexS_lf, pairsSeg q ps rest (l + 1)]
+      simp only [pairsToks, List.append_assoc, List.cons_append, List.length_cons]
+      have : l + 1 + ps.length = l + (ps.length + 1) := by omega
+      rw [this]
+
+/-! ### arguments (one per line; a metadata tuple spans several lines) -/
 
 /-- is the parameter an argument is given for a result parameter (lists unwrapped)? - decides whether text is written bare or quoted -/
 def argIsRes (c : PCmd) (a : Arg) : Bool := match c.decl.input? a.name with | some i => specIsResult i.spec | none => false
 
-/-- an argument the theorem covers: identifier name, a covered value that is not a metadata tuple -/
-def ArgCovered (c : PCmd) (a : Arg) : Prop := IsIdent a.name ∧ Covered (argIsRes c a) a.value
+/-- an argument the theorem covers: identifier name; a covered value, or a non-empty metadata tuple whose values have a text form -/
+def ArgCovered (c : PCmd) (a : Arg) : Prop :=
+  IsIdent a.name ∧ (match a.value with
+    | .dict kv => kv ≠ [] ∧ (metaPairs kv).isSome
+    | v => Covered (argIsRes c a) v)
 
-def rowToks (c : PCmd) (a : Arg) (l : Nat) : List Tok :=
-  ⟨.id, .str a.name, l⟩ :: ⟨.equal, .none, l⟩ :: valToks (argIsRes c a) a.value l
+/-- line breaks inside the text of an argument -/
+def argNl (a : Arg) : Nat := match a.value with | .dict kv => kv.length + 1 | _ => 0
 
-def argNode (c : PCmd) (a : Arg) (l : Nat) : ANode := ⟨a.name, valNode (argIsRes c a) a.value l, l⟩
+def argValToks (c : PCmd) (a : Arg) (l : Nat) : List Tok :=
+  match a.value with
+  | .dict kv => ⟨.lbrack, .none, l⟩ :: pairsToks ((metaPairs kv).getD []) (l + 1) ++ [⟨.rbrack, .none, l + kv.length + 1⟩]
+  | v => valToks (argIsRes c a) v l
 
-theorem covered_not_dict {isRes : Bool} {r : Raw} (h : Covered isRes r) : ∀ kv, r ≠ .dict kv := by
-  intro kv e; subst e; simp [Covered] at h
+def argValNode (c : PCmd) (a : Arg) (l : Nat) : ENode :=
+  match a.value with
+  | .dict kv => .mk (.dict (dictOf ((metaPairs kv).getD []) (l + 1))) l
+  | v => valNode (argIsRes c a) v l
 
-theorem serializeArgument_eq (c : PCmd) (a : Arg) (h : ArgCovered c a) : serializeArgument (argIsRes c a) a = serializeValue (argIsRes c a) a.value := by
-  unfold serializeArgument
+def rowToks (c : PCmd) (a : Arg) (l : Nat) : List Tok := ⟨.id, .str a.name, l⟩ :: ⟨.equal, .none, l⟩ :: argValToks c a l
+
+def argNode (c : PCmd) (a : Arg) (l : Nat) : ANode := ⟨a.name, argValNode c a l, l⟩
+
+theorem metaPairs_length {kv : List (String × Raw)} {ps : List (String × String)} (h : metaPairs kv = some ps) : ps.length = kv.length := by
+  induction kv generalizing ps with
+  | nil => simp [metaPairs] at h; subst h; rfl
+  | cons p kv ih =>
+    obtain ⟨k, v⟩ := p
+    simp only [metaPairs] at h
+    cases ht : scalarText v with
+    | none => rw [ht] at h; cases h
+    | some t =>
+      rw [ht] at h
+      cases hps : metaPairs kv with
+      | none => rw [hps] at h; cases h
+      | some qs => rw [hps] at h; simp only [Option.some.injEq] at h; subst h; simp [ih hps]
+
+theorem argVal_RVal (c : PCmd) (a : Arg) (h : ArgCovered c a) (l : Nat) : RVal (argValToks c a l) (argValNode c a l) := by
+  unfold argValToks argValNode
+  obtain ⟨_, hv⟩ := h
   split
-  · rename_i kv hv; exact absurd hv (covered_not_dict h.2 kv)
-  · rfl
+  · rename_i kv hkv
+    rw [hkv] at hv
+    simp only at hv
+    obtain ⟨hne, hs⟩ := hv
+    obtain ⟨ps, hps⟩ := Option.isSome_iff_exists.mp hs
+    have hl := metaPairs_length hps
+    have hpne : ps ≠ [] := by intro e; subst e; simp at hl; exact hne (List.length_eq_zero_iff.mp hl.symm)
+    simp only [hps, Option.getD_some]
+    exact RVal.dict l _ _ _ (pairsRPairs ps hpne (l + 1))
+  · rename_i v hnd
+    have : Covered (argIsRes c a) a.value := by
+      cases hav : a.value with
+      | dict kv => exact absurd hav (hnd kv)
+      | _ => rw [hav] at hv; exact hv
+    exact valRVal _ _ this l
 
-/-- one `name = value` row, followed by a delimiter -/
+theorem rowRArg (c : PCmd) (a : Arg) (h : ArgCovered c a) (l : Nat) : RArg (rowToks c a l) (argNode c a l) :=
+  RArg.mk a.name l l _ _ (argVal_RVal c a h l)
+
+/-- what follows an argument in serialised text: a comma or the end of the line -/
+def RowEnd (rest : List Char) : Prop := ∃ c r, rest = c :: r ∧ (c = ',' ∨ c = '\n')
+
+theorem RowEnd.delim {rest : List Char} (h : RowEnd rest) : Delim rest := by
+  obtain ⟨c, r, rfl, hc⟩ := h
+  rcases hc with rfl | rfl
+  · exact delim_comma r
+  · exact delim_nl r
+
+/-- the text of an argument's value, followed by the end of its row -/
+theorem argValSeg (c : PCmd) (a : Arg) (h : ArgCovered c a) (t : String) (ht : serializeArgument (argIsRes c a) a = some t)
+    (rest : List Char) (l : Nat) (hd : RowEnd rest) :
+    lexS (t.toList ++ rest) l = argValToks c a l ++ lexS rest (l + argNl a) := by
+  unfold serializeArgument at ht
+  unfold argValToks argNl
+  obtain ⟨_, hv⟩ := h
+  split at ht
+  · rename_i kv hkv
+    rw [hkv] at hv
+    simp only at hv
+    obtain ⟨hne, _⟩ := hv
+    cases hm : (kv.mapM fun (p : String × Raw) => (scalarText p.2).map fun t => "        " ++ quoteStr p.1 ++ ": " ++ quoteStr t) with
+    | none =>
+      have : (kv.mapM fun (x : String × Raw) => match x with | (k, v) => (scalarText v).map fun t => "        " ++ quoteStr k ++ ": " ++ quoteStr t) = none := hm
+      rw [this] at ht; cases ht
+    | some rows =>
+      have hm' : (kv.mapM fun (x : String × Raw) => match x with | (k, v) => (scalarText v).map fun t => "        " ++ quoteStr k ++ ": " ++ quoteStr t) = some rows := hm
+      rw [hm'] at ht
+      simp only [Option.map_some, Option.some.injEq] at ht
+      subst ht
+      obtain ⟨ps, hps, rfl⟩ := meta_rows hm
+      have hl := metaPairs_length hps
+      cases ps with
+      | nil => simp at hl; exact absurd (List.length_eq_zero_iff.mp hl.symm) hne
+      | cons p ps =>
+        simp only [hkv, hps, Option.getD_some]
+        have e : ("[\n" ++ ",\n".intercalate ((p :: ps).map pairRow) ++ "\n    ]").toList ++ rest =
+            '[' :: '\n' :: ((pairRow p).toList ++ (morePairChars (ps.map pairRow) ++ ('\n' :: ' ' :: ' ' :: ' ' :: ' ' :: ']' :: rest))) := by
+          rw [String.toList_append, String.toList_append, List.map_cons, pairs_chars]
+          show (['[', '\n'] ++ ((pairRow p).toList ++ morePairChars (ps.map pairRow))) ++ ['\n', ' ', ' ', ' ', ' ', ']'] ++ rest = _
+          simp only [List.append_assoc, List.cons_append, List.nil_append]
+        rw [e, lexS_punct '[' .lbrack _ l (by decide), lexS_lf, pairsSeg p ps _ (l + 1), lexS_lf]
+        iterate 4 rw [lexS_blank ' ' _ _ (Or.inl rfl)]
+        rw [lexS_punct ']' .rbrack _ _ (by decide)]
+        simp only [List.cons_append, List.append_assoc, List.nil_append]
+        have h1 : l + 1 + ps.length + 1 = l + kv.length + 1 := by simp at hl; omega
+        have h2 : l + 1 + ps.length + 1 = l + (kv.length + 1) := by simp at hl; omega
+        rw [h1] at *
+        rw [← h2, h1]
+  · rename_i v hnd
+    have hcov : Covered (argIsRes c a) a.value := by
+      cases hav : a.value with
+      | dict kv => exact absurd hav (hnd kv)
+      | _ => rw [hav] at hv; exact hv
+    have := valSeg _ a.value hcov t ht rest l hd.delim
+    rw [this]
+    cases hav : a.value <;> simp_all
+
+/-- one `name = value` row, followed by the end of the row -/
 theorem rowSeg (c : PCmd) (a : Arg) (h : ArgCovered c a) (t : String) (ht : serializeArgument (argIsRes c a) a = some t)
-    (rest : List Char) (l : Nat) (hd : Delim rest) :
-    lexS ((a.name ++ " = " ++ t).toList ++ rest) l = rowToks c a l ++ lexS rest l := by
-  rw [serializeArgument_eq c a h] at ht
+    (rest : List Char) (l : Nat) (hd : RowEnd rest) :
+    lexS ((a.name ++ " = " ++ t).toList ++ rest) l = rowToks c a l ++ lexS rest (l + argNl a) := by
   have e : (a.name ++ " = " ++ t).toList ++ rest = a.name.toList ++ (' ' :: '=' :: ' ' :: (t.toList ++ rest)) := by
     rw [String.toList_append, String.toList_append]
     show (a.name.toList ++ [' ', '=', ' '] ++ t.toList) ++ rest = _
     simp only [List.append_assoc, List.cons_append, List.nil_append]
   rw [e, spells_identStr a.name h.1 _ l (stopsAt_cons (by decide)), lexS_blank ' ' _ l (Or.inl rfl),
-    lexS_punct '=' .equal _ l (by decide), lexS_blank ' ' _ l (Or.inl rfl), valSeg _ a.value h.2 t ht rest l hd]
+    lexS_punct '=' .equal _ l (by decide), lexS_blank ' ' _ l (Or.inl rfl), argValSeg c a h t ht rest l hd]
   rfl
-
-theorem rowRArg (c : PCmd) (a : Arg) (h : ArgCovered c a) (l : Nat) : RArg (rowToks c a l) (argNode c a l) :=
-  RArg.mk a.name l l _ _ (valRVal _ a.value h.2 l)
 
 /-- the rows after the first: `,` at the end of the previous line, then the row on the next line -/
 def moreChars (rows : List String) : List Char := rows.flatMap fun r => ',' :: '\n' :: ' ' :: ' ' :: ' ' :: ' ' :: r.toList
 
+/-- `l` = the line on which the previous row ended -/
 def moreToks (c : PCmd) : List Arg → Nat → List Tok
   | [], _ => []
-  | b :: bs, l => ⟨.comma, .none, l⟩ :: (rowToks c b (l + 1) ++ moreToks c bs (l + 1))
+  | b :: bs, l => ⟨.comma, .none, l⟩ :: (rowToks c b (l + 1) ++ moreToks c bs (l + 1 + argNl b))
 
 def moreNodes (c : PCmd) : List Arg → Nat → List ANode
   | [], _ => []
-  | b :: bs, l => argNode c b (l + 1) :: moreNodes c bs (l + 1)
+  | b :: bs, l => argNode c b (l + 1) :: moreNodes c bs (l + 1 + argNl b)
+
+/-- the line on which the last of the rows ends -/
+def moreEnd : List Arg → Nat → Nat
+  | [], l => l
+  | b :: bs, l => moreEnd bs (l + 1 + argNl b)
 
 def rowTexts (c : PCmd) (as : List Arg) : Option (List String) :=
   as.mapM fun a => (serializeArgument (argIsRes c a) a).map fun t => a.name ++ " = " ++ t
@@ -372,47 +574,41 @@ def rowTexts (c : PCmd) (as : List Arg) : Option (List String) :=
 theorem rowTexts_cons {c : PCmd} {a : Arg} {as : List Arg} {rows : List String} (h : rowTexts c (a :: as) = some rows) :
     ∃ t rs, serializeArgument (argIsRes c a) a = some t ∧ rowTexts c as = some rs ∧ rows = (a.name ++ " = " ++ t) :: rs := by
   unfold rowTexts at h ⊢
-  rw [List.mapM_cons] at h
+  obtain ⟨r, rs, hr, hrs, rfl⟩ := mapM_cons_some' h
   cases ht : serializeArgument (argIsRes c a) a with
-  | none => rw [ht] at h; simp at h
+  | none => rw [ht] at hr; simp at hr
   | some t =>
-    rw [ht] at h
-    cases hr : (List.mapM (fun a => (serializeArgument (argIsRes c a) a).map fun t => a.name ++ " = " ++ t) as) with
-    | none => rw [hr] at h; simp at h
-    | some rs =>
-      rw [hr] at h
-      simp only [Option.map_some, Option.bind_eq_bind, Option.bind_some, Option.pure_def, Option.some.injEq] at h
-      exact ⟨t, rs, rfl, rfl, h.symm⟩
+    rw [ht] at hr
+    simp only [Option.map_some, Option.some.injEq] at hr
+    exact ⟨t, rs, rfl, hrs, by rw [hr]⟩
+
+theorem rowEnd_more (rs : List String) (rest : List Char) (hd : RowEnd rest) : RowEnd (moreChars rs ++ rest) := by
+  cases rs with
+  | nil => simpa [moreChars] using hd
+  | cons r rs' => exact ⟨',', '\n' :: ' ' :: ' ' :: ' ' :: ' ' :: (r.toList ++ (moreChars rs' ++ rest)), by simp [moreChars], Or.inl rfl⟩
 
 theorem moreSeg (c : PCmd) : ∀ (as : List Arg), (∀ a ∈ as, ArgCovered c a) → ∀ (rows : List String), rowTexts c as = some rows →
-    ∀ rest l, Delim rest → lexS (moreChars rows ++ rest) l = moreToks c as l ++ lexS rest (l + as.length)
+    ∀ rest l, RowEnd rest → lexS (moreChars rows ++ rest) l = moreToks c as l ++ lexS rest (moreEnd as l)
   | [], _, rows, hr, rest, l, _ => by
       have : rows = [] := by simpa [rowTexts] using hr.symm
-      subst this; simp [moreChars, moreToks]
+      subst this; simp [moreChars, moreToks, moreEnd]
   | b :: bs, h, rows, hr, rest, l, hd => by
       obtain ⟨t, rs, ht, hrs, rfl⟩ := rowTexts_cons hr
       have hb := h b (List.mem_cons_self ..)
       have e : moreChars ((b.name ++ " = " ++ t) :: rs) ++ rest =
           ',' :: '\n' :: ' ' :: ' ' :: ' ' :: ' ' :: ((b.name ++ " = " ++ t).toList ++ (moreChars rs ++ rest)) := by
         simp [moreChars]
-      have hd' : Delim (moreChars rs ++ rest) := by
-        cases rs with
-        | nil => simpa [moreChars] using hd
-        | cons r rs' =>
-          exact ⟨',', '\n' :: ' ' :: ' ' :: ' ' :: ' ' :: (r.toList ++ (moreChars rs' ++ rest)), by simp [moreChars], Or.inl rfl⟩
       rw [e, lexS_punct ',' .comma _ l (by decide), lexS_lf, lexS_blank ' ' _ _ (Or.inl rfl), lexS_blank ' ' _ _ (Or.inl rfl),
-        lexS_blank ' ' _ _ (Or.inl rfl), lexS_blank ' ' _ _ (Or.inl rfl), rowSeg c b hb t ht _ (l + 1) hd',
-        moreSeg c bs (fun a ha => h a (List.mem_cons_of_mem _ ha)) rs hrs rest (l + 1) hd]
-      simp only [moreToks, List.cons_append, List.append_assoc, List.length_cons]
-      have : l + 1 + bs.length = l + (bs.length + 1) := by omega
-      rw [this]
+        lexS_blank ' ' _ _ (Or.inl rfl), lexS_blank ' ' _ _ (Or.inl rfl), rowSeg c b hb t ht _ (l + 1) (rowEnd_more rs rest hd),
+        moreSeg c bs (fun a ha => h a (List.mem_cons_of_mem _ ha)) rs hrs rest (l + 1 + argNl b) hd]
+      simp only [moreToks, moreEnd, List.cons_append, List.append_assoc]
 
 theorem moreRArgs (c : PCmd) : ∀ (as : List Arg), (∀ a ∈ as, ArgCovered c a) → ∀ (l : Nat) (ts : List Tok) (n : ANode),
     RArg ts n → RArgs (ts ++ moreToks c as l) (n :: moreNodes c as l)
   | [], _, l, ts, n, hn => by simpa [moreToks, moreNodes] using RArgs.one ts n hn
   | b :: bs, h, l, ts, n, hn => by
       have hb := rowRArg c b (h b (List.mem_cons_self ..)) (l + 1)
-      have := moreRArgs c bs (fun a ha => h a (List.mem_cons_of_mem _ ha)) (l + 1) _ _ hb
+      have := moreRArgs c bs (fun a ha => h a (List.mem_cons_of_mem _ ha)) (l + 1 + argNl b) _ _ hb
       simp only [moreToks, moreNodes]
       exact RArgs.cons ts n l _ _ hn this
 
@@ -429,23 +625,23 @@ theorem rows_chars (r : String) (rs : List String) : (",\n    ".intercalate (r :
 /-- a command the theorem covers: identifier result and command names, covered arguments -/
 def CmdCovered (c : PCmd) : Prop := IsIdent c.resultName ∧ IsIdent c.decl.name ∧ ∀ a ∈ c.args, ArgCovered c a
 
+/-- the line of the closing parenthesis, for a command that starts on line `L` -/
+def cmdEnd (c : PCmd) (L : Nat) : Nat := match c.args with | [] => L + 2 | a :: as => moreEnd as (L + 1 + argNl a) + 1
+
 def cmdToks (c : PCmd) (L : Nat) : List Tok :=
   ⟨.id, .str c.resultName, L⟩ :: ⟨.equal, .none, L⟩ :: ⟨.id, .str c.decl.name, L⟩ :: ⟨.lparen, .none, L⟩ ::
     (match c.args with
      | [] => [⟨.rparen, .none, L + 2⟩]
-     | a :: as => (rowToks c a (L + 1) ++ moreToks c as (L + 1)) ++ [⟨.rparen, .none, L + 1 + as.length + 1⟩])
-
-/-- line breaks inside the text of a command -/
-def cmdNl (c : PCmd) : Nat := match c.args with | [] => 2 | _ :: as => as.length + 2
+     | a :: as => (rowToks c a (L + 1) ++ moreToks c as (L + 1 + argNl a)) ++ [⟨.rparen, .none, moreEnd as (L + 1 + argNl a) + 1⟩])
 
 def cmdNode (c : PCmd) (L : Nat) : CNode :=
-  ⟨some c.resultName, c.decl.name, (match c.args with | [] => [] | a :: as => argNode c a (L + 1) :: moreNodes c as (L + 1)), L⟩
+  ⟨some c.resultName, c.decl.name, (match c.args with | [] => [] | a :: as => argNode c a (L + 1) :: moreNodes c as (L + 1 + argNl a)), L⟩
 
 theorem serializeCommand_eq (c : PCmd) : serializeCommand c =
     (rowTexts c c.args).map fun rows => c.resultName ++ " = " ++ c.decl.name ++ "(" ++ "\n    " ++ ",\n    ".intercalate rows ++ "\n" ++ ")" := rfl
 
 theorem cmdSeg (c : PCmd) (h : CmdCovered c) (txt : String) (ht : serializeCommand c = some txt) (rest : List Char) (L : Nat) :
-    lexS (txt.toList ++ rest) L = cmdToks c L ++ lexS rest (L + cmdNl c) := by
+    lexS (txt.toList ++ rest) L = cmdToks c L ++ lexS rest (cmdEnd c L) := by
   rw [serializeCommand_eq] at ht
   cases hr : rowTexts c c.args with
   | none => rw [hr] at ht; cases ht
@@ -472,7 +668,7 @@ theorem cmdSeg (c : PCmd) (h : CmdCovered c) (txt : String) (ht : serializeComma
         show ((((((c.resultName.toList ++ [' ', '=', ' ']) ++ c.decl.name.toList) ++ ['(']) ++ ['\n', ' ', ' ', ' ', ' ']) ++ []) ++ ['\n']) ++ [')'] ++ rest = _
         simp only [List.append_assoc, List.cons_append, List.nil_append]
       rw [e, head, lexS_lf, lexS_punct ')' .rparen _ _ (by decide)]
-      simp only [cmdToks, cmdNl, hargs]
+      simp only [cmdToks, cmdEnd, hargs]
       rfl
     | cons a as =>
       rw [hargs] at hr
@@ -487,16 +683,10 @@ theorem cmdSeg (c : PCmd) (h : CmdCovered c) (txt : String) (ht : serializeComma
         show ((((((c.resultName.toList ++ [' ', '=', ' ']) ++ c.decl.name.toList) ++ ['(']) ++ ['\n', ' ', ' ', ' ', ' ']) ++
           ((a.name ++ " = " ++ t).toList ++ moreChars rs)) ++ ['\n']) ++ [')'] ++ rest = _
         simp only [List.append_assoc, List.cons_append, List.nil_append]
-      have hd : Delim (moreChars rs ++ ('\n' :: ')' :: rest)) := by
-        cases rs with
-        | nil => exact ⟨'\n', ')' :: rest, by simp [moreChars], Or.inr (Or.inr rfl)⟩
-        | cons r rs' =>
-          exact ⟨',', '\n' :: ' ' :: ' ' :: ' ' :: ' ' :: (r.toList ++ (moreChars rs' ++ ('\n' :: ')' :: rest))), by simp [moreChars], Or.inl rfl⟩
-      rw [e, head, rowSeg c a ha t hta _ (L + 1) hd, moreSeg c as has rs hrs _ (L + 1) (delim_nl _), lexS_lf,
+      have hend : RowEnd ('\n' :: ')' :: rest) := ⟨'\n', _, rfl, Or.inr rfl⟩
+      rw [e, head, rowSeg c a ha t hta _ (L + 1) (rowEnd_more rs _ hend), moreSeg c as has rs hrs _ (L + 1 + argNl a) hend, lexS_lf,
         lexS_punct ')' .rparen _ _ (by decide)]
-      simp only [cmdToks, cmdNl, hargs, List.cons_append, List.append_assoc, List.nil_append]
-      have : L + 1 + as.length + 1 = L + (as.length + 2) := by omega
-      rw [this]
+      simp only [cmdToks, cmdEnd, hargs, List.cons_append, List.append_assoc, List.nil_append]
 
 theorem cmdRCmd (c : PCmd) (h : CmdCovered c) (L : Nat) : RCmd (cmdToks c L) (cmdNode c L) := by
   obtain ⟨_, _, hA⟩ := h
@@ -506,20 +696,20 @@ theorem cmdRCmd (c : PCmd) (h : CmdCovered c) (L : Nat) : RCmd (cmdToks c L) (cm
   | cons a as =>
     have ha := hA a (by rw [hargs]; exact List.mem_cons_self ..)
     have has : ∀ b ∈ as, ArgCovered c b := fun b hb => hA b (by rw [hargs]; exact List.mem_cons_of_mem _ hb)
-    have := moreRArgs c as has (L + 1) _ _ (rowRArg c a ha (L + 1))
-    exact RCmd.args _ _ L L L L (L + 1 + as.length + 1) _ _ this
+    have := moreRArgs c as has (L + 1 + argNl a) _ _ (rowRArg c a ha (L + 1))
+    exact RCmd.args _ _ L L L L _ _ _ this
 
 /-! ### programs -/
 
 def progToks : List PCmd → Nat → List Tok
   | [], _ => []
   | [c], L => cmdToks c L
-  | c :: d :: cs, L => cmdToks c L ++ progToks (d :: cs) (L + cmdNl c + 1)
+  | c :: d :: cs, L => cmdToks c L ++ progToks (d :: cs) (cmdEnd c L + 1)
 
 def progNodes : List PCmd → Nat → List CNode
   | [], _ => []
   | [c], L => [cmdNode c L]
-  | c :: d :: cs, L => cmdNode c L :: progNodes (d :: cs) (L + cmdNl c + 1)
+  | c :: d :: cs, L => cmdNode c L :: progNodes (d :: cs) (cmdEnd c L + 1)
 
 /-- the commands after the first, each on a new line -/
 def moreCmdChars (ts : List String) : List Char := ts.flatMap fun t => '\n' :: t.toList
@@ -573,8 +763,9 @@ def ProgCovered (p : Program) : Prop := p.cmds ≠ [] ∧ ∀ c ∈ p.cmds, CmdC
 integers in decimal, references, booleans and `None` as words, lists to any depth - is read back by the parser as exactly that program:
 the same commands in the same order, the same argument names and values, version 3, every node on the line the serializer put it on.
 (Covered: result, command and argument names that are identifiers; values that are strings, integers, booleans, `None`, references
-and lists of these.  Decimals and metadata tuples are outside this theorem and covered by the character-exact correspondence and the
-round-trip oracle on the implementation.) -/
+and lists of these; metadata tuples of any length, whose values - numbers included - are written as quoted text and come back as that
+text, the map built from the last pair backwards as the parser does.  Decimals as argument values are outside this theorem: their
+positional printing is covered by the character-exact correspondence and the round-trip oracle on the implementation.) -/
 theorem serialize_parse_roundtrip (p : Program) (h : ProgCovered p) (txt : String) (ht : serializeProgram p = some txt) :
     parse txt = .ok ⟨progNodes p.cmds 1, 3⟩ := by
   obtain ⟨hne, hc⟩ := h
